@@ -9,7 +9,8 @@ def run(ctx):
     _, cases = O.family(ctx)
     ctx.cov["exhaustive"] = True
     cases = [c for c in cases if not c["fault"]]
-    jobs = [dict(ocfg=c, variant=k, scheduler="synchronous" if c["dask"] else None) for k, c in enumerate(cases)]
+    jobs = [dict(ocfg=c, variant=k, scheduler="synchronous" if c["dask"] else None, repeat=2 if k % 4 == 1 else 1)
+            for k, c in enumerate(cases)]
     traces = O.record(jobs)
     ctx.cov["replayed_cases"] += len(traces)
     ctx.sample({"ocfg": traces[1]["ocfg"], "events": traces[1]["events"][:6]})
